@@ -1,6 +1,10 @@
 (* C13 -- the errors property is a pure and complete rendering of the errors.  Model: Model/Handler.v
-   (tokens for messages).  PARTIAL: purity and the one-message-per-insertion / top-level-key laws are proved;
-   the full path law for nested *of errors is checked by diffing the real handler logic against the model. *)
+   (tokens for messages).  Proved: purity; one message per insertion and the top-level-key law; and, for error
+   forests of ANY nesting, the number of messages of the rendering: every non-group error contributes exactly one
+   message, an *of error its own message plus what its definitions' errors contribute, a group error what its
+   children contribute (C13_message_count).  PARTIAL: WHERE nested messages are placed (the dict that ends the
+   parent's list, the `<rule> definition <i>` nodes) is checked by diffing the real handler against the model node
+   by node, not stated as a theorem. *)
 From Coq Require Import List ZArith String Bool.
 From Cerb Require Import Values PyOps Errors Facts SpecFacts FactsOk Pool Handler HandlerProofs Current.
 Import ListNotations.
@@ -40,4 +44,26 @@ Example C13_example :
   let lg := Err [KStr "a"; KInt 0] (SP [KStr "a"; KStr "schema"; KStr "anyof"]) 147 (Some "anyof"%string) VNone VNone [VInt 0; VInt 2] [leaf] in
   let grp := Err [KStr "a"] (SP [KStr "a"; KStr "schema"]) 130 (Some "schema"%string) VNone VNone [] [lg] in
   rt_count (fst (render current [grp])) = 2%nat /\ rt_keys (fst (render current [grp])) = [KStr "a"].
+Proof. vm_compute. split; reflexivity. Qed.
+
+(* the number of messages, for any nesting *)
+Theorem C13_message_count : forall errs, Forall (fun e => e_dp e <> []) errs ->
+  rt_count (fst (render current errs)) = fold_left (fun n e => (n + nmsgs current (S (err_depth e)) 0 e)%nat) errs O.
+Proof. exact (render_count current). Qed.
+Print Assumptions C13_message_count.
+
+(* what one error contributes: [nmsgs] unfolds to the statement's counting rule *)
+Theorem C13_count_rule : forall f kind e,
+  nmsgs current (S f) kind e =
+  if is_logic (f_masks current) e then S (fold_left (fun n c => (n + nmsgs current f 2 c)%nat) (child_errors (f_masks current) e) O)
+  else if is_group (f_masks current) e then fold_left (fun n c => (n + nmsgs current f 1 c)%nat) (child_errors (f_masks current) e) O
+  else match kind with O => if has_message current (e_code e) then 1%nat else O | _ => 1%nat end.
+Proof. reflexivity. Qed.
+
+Example C13_count_example :
+  let leaf1 := Err [KStr "a"; KInt 0] (SP [KStr "a"; KStr "schema"; KStr "anyof"; KInt 0; KStr "type"]) 36 (Some "type"%string) VNone VNone [] [] in
+  let leaf2 := Err [KStr "a"; KInt 0] (SP [KStr "a"; KStr "schema"; KStr "anyof"; KInt 1; KStr "min"]) 66 (Some "min"%string) VNone VNone [] [] in
+  let lg := Err [KStr "a"; KInt 0] (SP [KStr "a"; KStr "schema"; KStr "anyof"]) 147 (Some "anyof"%string) VNone VNone [VInt 0; VInt 2] [leaf1; leaf2] in
+  let grp := Err [KStr "a"] (SP [KStr "a"; KStr "schema"]) 130 (Some "schema"%string) VNone VNone [] [lg] in
+  nmsgs current (S (err_depth grp)) 0 grp = 3%nat /\ rt_count (fst (render current [grp])) = 3%nat.
 Proof. vm_compute. split; reflexivity. Qed.
